@@ -87,6 +87,25 @@ class RefModel:
         return len(direct) == 1 and not swapped and direct[0][0] == role and s != t
 
 
+class RefInvModel(RefModel):
+    """Reference for a user subclass of Model with another inversion convention: a role is
+    inverted iff it is spelled ':inv-X', and inverting toggles that prefix (roles ending in
+    '-of' are ordinary roles).  The library must get there through the overridable methods
+    is_role_inverted / invert_role only."""
+
+    def inverted(self, role):
+        return role.startswith(':inv-')
+
+    def invert_role(self, role):
+        return ':' + role[5:] if role.startswith(':inv-') else ':inv-' + role[1:]
+
+    def has_role(self, role):          # Model.has_role hard-codes the -of rule: not claimed
+        raise NotImplementedError
+
+    def canon_role(self, role):
+        raise NotImplementedError
+
+
 def _full(pattern, role):
     try:
         return re.fullmatch(pattern, role) is not None
